@@ -447,6 +447,13 @@ inline thread_local const void* tl_ctx_addr = nullptr;
 
 // contextual rule functor (attached with >>=): logs which object it was handed (identity, constness), mutates it if allowed
 template<typename T> struct is_ctx : std::bool_constant<std::is_same_v<std::decay_t<T>, Ctx> || std::is_same_v<std::decay_t<T>, CtxMO> || std::is_same_v<std::decay_t<T>, CtxAmp> || std::is_same_v<std::decay_t<T>, CtxSmall> || std::is_same_v<std::decay_t<T>, ctpg::no_type>> {};
+// a context object handed to a functor that was attached with >= (it must never get one): observed as an argument -9
+template<typename C, std::enable_if_t<is_ctx<C>::value && !std::is_same_v<std::decay_t<C>, ctpg::no_type>, int> = 0>
+inline void take_arg(Tree& parent, std::vector<long>& ids, std::vector<long>& lines, std::vector<long>& cols, C&&)
+{
+    ids.push_back(-9); lines.push_back(-1); cols.push_back(-1);
+    parent.ch.push_back(nullptr);
+}
 template<typename... X> struct first_is_ctx : std::false_type {};
 template<typename X0, typename... X> struct first_is_ctx<X0, X...> : is_ctx<X0> {};
 struct RuleFC
